@@ -97,7 +97,7 @@ func v28sumFromInt(n int64) dnum.Dnum {
 // C28 lemma: the real dnum.FromInt satisfies the contract used by the numeric harnesses, for
 // every int64 (split by sign and number of digits so that the ranges are tight).
 //
-//symgo:harness prop=C28 tier=quick arith=int shards=4 timeout=450 qtimeout=30000 bounds=all_int64_(case_split:sign_x_1..19_digits,zero,MinInt64)
+//symgo:harness prop=C28 tier=quick arith=int shards=4 timeout=450 qtimeout=120000 bounds=all_int64_(case_split:sign_x_1..19_digits,zero,MinInt64)
 func VerifC28FromIntSpec() {
 	var n int64
 	e := rt.Pick("digits", 21)
@@ -226,7 +226,7 @@ func v28numEqual(lo, hi int64, wantWide bool) {
 // C28 numbers: triples of numeric values whose integers have at most 16 digits: Compare is
 // antisymmetric and transitive.
 //
-//symgo:harness prop=C28 tier=quick arith=int shards=8 tshards=16 timeout=300 ttimeout=1700 qtimeout=30000 summary=util/dnum.FromInt=v28sumFromInt bounds=triples_of:integer_|n|<10^16_(small_int_or_SuInt64)|finite_16-digit_decimal_exponent_-3..22_(thorough:+decimal_zero,+infinities,+SuInt64_holding_a_small_value);FromInt_by_its_proved_contract outside=integers_of_17..19_digits_(VerifC28NumOrderWide);unnormalized_decimals
+//symgo:harness prop=C28 tier=quick arith=int shards=8 tshards=16 timeout=300 ttimeout=1700 qtimeout=120000 summary=util/dnum.FromInt=v28sumFromInt bounds=triples_of:integer_|n|<10^16_(small_int_or_SuInt64)|finite_16-digit_decimal_exponent_-3..22_(thorough:+decimal_zero,+infinities,+SuInt64_holding_a_small_value);FromInt_by_its_proved_contract outside=integers_of_17..19_digits_(VerifC28NumOrderWide);unnormalized_decimals
 func VerifC28NumOrder() {
 	v28numOrder(-v28exact, v28exact, false)
 }
@@ -234,14 +234,14 @@ func VerifC28NumOrder() {
 // C28 numbers, integers of 17..19 digits: the conversion to a 16-digit decimal inside Compare
 // is lossy there.
 //
-//symgo:harness prop=C28 tier=quick arith=int shards=8 tshards=16 timeout=300 ttimeout=1700 qtimeout=30000 summary=util/dnum.FromInt=v28sumFromInt bounds=as_VerifC28NumOrder_with_any_int64,at_least_one_integer_of_17..19_digits,decimal_exponents_14..22
+//symgo:harness prop=C28 tier=quick arith=int shards=8 tshards=16 timeout=300 ttimeout=1700 qtimeout=120000 summary=util/dnum.FromInt=v28sumFromInt bounds=as_VerifC28NumOrder_with_any_int64,at_least_one_integer_of_17..19_digits,decimal_exponents_14..22
 func VerifC28NumOrderWide() {
 	v28numOrder(math.MinInt64, math.MaxInt64, true)
 }
 
 // C28 numbers: pairs: Equal is symmetric and Equal numbers compare as equal.
 //
-//symgo:harness prop=C28 tier=quick arith=int shards=8 tshards=8 timeout=300 ttimeout=1700 qtimeout=30000 summary=util/dnum.FromInt=v28sumFromInt bounds=pairs_of_the_values_of_VerifC28NumOrder_(integers_|n|<10^16)
+//symgo:harness prop=C28 tier=quick arith=int shards=8 tshards=8 timeout=300 ttimeout=1700 qtimeout=120000 summary=util/dnum.FromInt=v28sumFromInt bounds=pairs_of_the_values_of_VerifC28NumOrder_(integers_|n|<10^16)
 func VerifC28NumEqual() {
 	v28numEqual(-v28exact, v28exact, false)
 }
@@ -249,7 +249,7 @@ func VerifC28NumEqual() {
 // C28 numbers, pairs with an integer of 17..19 digits: a SuInt64 against the decimals of that
 // magnitude (exponent 17..19), both directions of Equal.
 //
-//symgo:harness prop=C28 tier=quick arith=int shards=1 timeout=400 qtimeout=30000 summary=util/dnum.FromInt=v28sumFromInt bounds=SuInt64_of_17..19_digits_against_any_finite_16-digit_decimal_with_exponent_17..19
+//symgo:harness prop=C28 tier=quick arith=int shards=1 timeout=400 qtimeout=120000 summary=util/dnum.FromInt=v28sumFromInt bounds=SuInt64_of_17..19_digits_against_any_finite_16-digit_decimal_with_exponent_17..19
 func VerifC28NumEqualWide() {
 	n := rt.I64Range("a.n", math.MinInt64, math.MaxInt64)
 	rt.Assume(n < -v28exact || n > v28exact)
@@ -270,7 +270,7 @@ func VerifC28NumEqualWide() {
 // C28 numbers, anchor: an integer against a decimal that holds an integer value m exactly
 // compares as n against m (so the order of the numeric classes is the numeric order).
 //
-//symgo:harness prop=C28 tier=quick arith=int shards=2 timeout=450 qtimeout=30000 summary=util/dnum.FromInt=v28sumFromInt ttimeout=1700 bounds=integer_|n|<10^16_against_every_decimal_holding_an_integer_m_of_16,15,9,5_or_1_digits_(thorough:1..16_digits)
+//symgo:harness prop=C28 tier=quick arith=int shards=2 timeout=450 qtimeout=120000 summary=util/dnum.FromInt=v28sumFromInt ttimeout=1700 bounds=integer_|n|<10^16_against_every_decimal_holding_an_integer_m_of_16,15,9,5_or_1_digits_(thorough:1..16_digits)
 func VerifC28NumExact() {
 	p := rt.Pick("p", 16) // m has 16-p digits
 	if !rt.Thorough() {
@@ -399,7 +399,7 @@ func v28lookup(label string, x, y Value) {
 // enumerated set of integers in the small-int range (the solver-decided part is the hash
 // equality of VerifC28NumHash; the map itself is C36).
 //
-//symgo:harness prop=C28 tier=quick timeout=300 bounds=n_in_{-32768,-129,-1,0,1,2,9,10,127,128,1000,32767};key_pairs_of_small_int|SuInt64|decimal
+//symgo:harness qtimeout=120000 prop=C28 tier=quick timeout=300 bounds=n_in_{-32768,-129,-1,0,1,2,9,10,127,128,1000,32767};key_pairs_of_small_int|SuInt64|decimal
 func VerifC28NumLookup() {
 	ns := []int{-32768, -129, -1, 0, 1, 2, 9, 10, 127, 128, 1000, 32767}
 	n := ns[rt.Pick("n", len(ns))]
@@ -422,14 +422,14 @@ func VerifC28NumLookup() {
 // C28 numbers: Equal numbers hash equally and find each other's members - integers in any
 // representation, and decimals against integers in the small-int range.
 //
-//symgo:harness prop=C28 tier=quick arith=int shards=1 timeout=300 bounds=x:any_small_int_or_any_SuInt64;y:small_int|SuInt64|decimal_zero|every_normalized_decimal_holding_a_non-zero_integer_of_the_int16_range outside=decimal_against_an_integer_outside_int16_(VerifC28NumHashWide)
+//symgo:harness qtimeout=120000 prop=C28 tier=quick arith=int shards=1 timeout=300 bounds=x:any_small_int_or_any_SuInt64;y:small_int|SuInt64|decimal_zero|every_normalized_decimal_holding_a_non-zero_integer_of_the_int16_range outside=decimal_against_an_integer_outside_int16_(VerifC28NumHashWide)
 func VerifC28NumHash() {
 	v28numHash()
 }
 
 // C28 numbers: a SuInt64 outside the int16 range against the Equal decimal.
 //
-//symgo:harness prop=C28 tier=quick shards=1 timeout=300 bounds=x:SuInt64_outside_int16;y:any_finite_16-digit_decimal_with_exponent_16..19,or_the_decimal_of_n_in_{32768,-32769,100000,-1000000,123456789}
+//symgo:harness qtimeout=120000 prop=C28 tier=quick shards=1 timeout=300 bounds=x:SuInt64_outside_int16;y:any_finite_16-digit_decimal_with_exponent_16..19,or_the_decimal_of_n_in_{32768,-32769,100000,-1000000,123456789}
 func VerifC28NumHashWide() {
 	v28numHashWide()
 }
@@ -622,7 +622,7 @@ func v28pair(a, b Value, ma, mb v28m) {
 
 // C28 all kinds: every pair of kinds with symbolic payloads.
 //
-//symgo:harness prop=C28 tier=quick shards=16 timeout=300 ttimeout=1700 bounds=pairs_of:boolean|small_int|SuInt64_(any)|finite_decimal_(any_16-digit_coefficient,exponent_<=0_or_>=16)|SuStr,SuConcat_(every_split),SuExcept_of_0..2_bytes_(thorough_0..3)|SuDate,SuTimestamp_(any_field_bits)|object_with_0..1_small-int_list_members outside=integer_against_decimal_and_decimals_with_exponent_1..15_(numeric_harnesses);hash_of_two_Equal_decimals_with_exponent_1..15;member_lookup_with_two_decimal_keys;longer_strings;nested_objects_(VerifC28Objects)
+//symgo:harness qtimeout=120000 prop=C28 tier=quick shards=16 timeout=300 ttimeout=1700 bounds=pairs_of:boolean|small_int|SuInt64_(any)|finite_decimal_(any_16-digit_coefficient,exponent_<=0_or_>=16)|SuStr,SuConcat_(every_split),SuExcept_of_0..2_bytes_(thorough_0..3)|SuDate,SuTimestamp_(any_field_bits)|object_with_0..1_small-int_list_members outside=integer_against_decimal_and_decimals_with_exponent_1..15_(numeric_harnesses);hash_of_two_Equal_decimals_with_exponent_1..15;member_lookup_with_two_decimal_keys;longer_strings;nested_objects_(VerifC28Objects)
 func VerifC28Pairs() {
 	maxLen := 2
 	if rt.Thorough() {
@@ -639,7 +639,7 @@ func VerifC28Pairs() {
 
 // C28 triples (thorough): direct transitivity over the kinds that do not need FromInt.
 //
-//symgo:harness prop=C28 tier=thorough tshards=16 ttimeout=1700 bounds=triples_of:boolean|small_int|SuInt64|SuStr,SuConcat,SuExcept_of_0..2_bytes|SuDate|SuTimestamp|object_with_0..1_members
+//symgo:harness qtimeout=120000 prop=C28 tier=thorough tshards=16 ttimeout=1700 bounds=triples_of:boolean|small_int|SuInt64|SuStr,SuConcat,SuExcept_of_0..2_bytes|SuDate|SuTimestamp|object_with_0..1_members
 func VerifC28Triples() {
 	ks := []int{v28Bool, v28Smi, v28I64, v28Str, v28Concat, v28Except, v28Date, v28Ts, v28Obj}
 	a, _ := v28val("a", ks[rt.Pick("a.kind", len(ks))], 2)
@@ -746,7 +746,7 @@ func v28obPair(a, b Value, ma, mb v28obm) {
 // C28 objects: pairs of objects/records with list members and at most one named member, or two
 // named members inserted in the same order.
 //
-//symgo:harness prop=C28 tier=quick shards=4 timeout=300 ttimeout=1700 bounds=pairs_of_object|record_with_0..1_(thorough_0..2)_small-int_list_members_and_named_members_from_{none,{-1},{5},{-1,5}_inserted_in_this_order};values_-128..127 outside=named_members_inserted_in_different_orders_(VerifC28ObjectHashOrder);nested_objects
+//symgo:harness qtimeout=120000 prop=C28 tier=quick shards=4 timeout=300 ttimeout=1700 bounds=pairs_of_object|record_with_0..1_(thorough_0..2)_small-int_list_members_and_named_members_from_{none,{-1},{5},{-1,5}_inserted_in_this_order};values_-128..127 outside=named_members_inserted_in_different_orders_(VerifC28ObjectHashOrder);nested_objects
 func VerifC28Objects() {
 	maxL := 1
 	if rt.Thorough() {
@@ -760,7 +760,7 @@ func VerifC28Objects() {
 
 // C28 objects: the same two named members inserted in opposite orders.
 //
-//symgo:harness prop=C28 tier=quick shards=1 timeout=300 bounds=pairs_of_object|record_with_0..1_list_members_and_named_members_-1_and_5_inserted_in_opposite_orders;values_any_int8
+//symgo:harness qtimeout=120000 prop=C28 tier=quick shards=1 timeout=300 bounds=pairs_of_object|record_with_0..1_list_members_and_named_members_-1_and_5_inserted_in_opposite_orders;values_any_int8
 func VerifC28ObjectHashOrder() {
 	a, ma := v28object("a", 1, []int{-1, 5})
 	b, mb := v28object("b", 1, []int{5, -1})
